@@ -47,8 +47,10 @@ Record sub := mkSub {
   hist : list item; recv : list item; expd : list item;
   hand : list Z }.                (* received by the consumer, not yet reported *)
 
-Inductive emit_pc := E0 | EChk | ELock | ESend (todo : list nat) | EWChk | ERLock
-                   | EWSend (todo : list nat) | ERet (code : Z) | EDone.
+(* ESend n todo: inside node n's emit loop, n.lk held; EWSend n todo: inside the
+   wildcard loop, read lock held (n only tags the items) *)
+Inductive emit_pc := E0 | EChk | ELock | ESend (n : nat) (todo : list nat) | EWChk (n : nat) | ERLock (n : nat)
+                   | EWSend (n : nat) (todo : list nat) | ERet (code : Z) | EDone.
 Record emit := mkEmit { eem : nat; eev : Z; epc : emit_pc }.
 
 Inductive cl_pc := C0 | C1 | C2 | C3 | C3d | C4 (code : Z) | C5.
@@ -180,11 +182,11 @@ Definition step_emit (st : state) (k : nat) : option (option label * state) :=
     | None => None
     | Some m =>
       let go p st' := set_emit st' k (e_pc e p) in
-      let n := mnode m in
       match epc e with
       | E0 => if Nat.eqb (mnew m) 4 then vis (LStart (TEmit k)) (go EChk st) else None
       | EChk => tau (go (if mclosed m then ERet 1 else ELock) st)       (* e.closed.Load() *)
       | ELock =>                                                        (* n.lk.Lock(); n.last = evt *)
+          let n := mnode m in
           match nth_error (nodes st) n with
           | Some nd =>
               match holder nd with
@@ -193,28 +195,28 @@ Definition step_emit (st : state) (k : nat) : option (option label * state) :=
                   let nd' := n_last (n_holder nd (Some (TEmit k))) (if keep nd then Some (eev e) else nlast nd) in
                   let st1 := set_node st n nd' in
                   let st2 := set_subs st1 (expect_all (subs st1) (sinks nd) (n, eev e) 0) in
-                  tau (go (ESend (sinks nd)) st2)
+                  tau (go (ESend n (sinks nd)) st2)
               end
           | None => None
           end
-      | ESend (s :: r) => otau (option_map (go (ESend r)) (send st s (n, eev e)))   (* sink.ch <- evt *)
-      | ESend [] =>                                                     (* n.lk.Unlock() *)
+      | ESend n (s :: r) => otau (option_map (go (ESend n r)) (send st s (n, eev e)))   (* sink.ch <- evt *)
+      | ESend n [] =>                                                   (* n.lk.Unlock() *)
           match nth_error (nodes st) n with
-          | Some nd => tau (go EWChk (set_node st n (n_holder nd None)))
+          | Some nd => tau (go (EWChk n) (set_node st n (n_holder nd None)))
           | None => None
           end
-      | EWChk => tau (go (if Nat.eqb (nsinks (wild st)) 0 then ERet 0 else ERLock) st)
-      | ERLock =>                                                       (* w.RLock() *)
+      | EWChk n => tau (go (if Nat.eqb (nsinks (wild st)) 0 then ERet 0 else ERLock n) st)
+      | ERLock n =>                                                     (* w.RLock() *)
           let w := wild st in
           match wpend w with
           | Some _ => None
           | None =>
               let st1 := set_wild st (mkWild None (S (rdrs w)) (wsinks w) (nsinks w)) in
               let st2 := set_subs st1 (expect_all (subs st1) (wsinks w) (n, eev e) 0) in
-              tau (go (EWSend (wsinks w)) st2)
+              tau (go (EWSend n (wsinks w)) st2)
           end
-      | EWSend (s :: r) => otau (option_map (go (EWSend r)) (send st s (n, eev e)))
-      | EWSend [] =>                                                    (* w.RUnlock() *)
+      | EWSend n (s :: r) => otau (option_map (go (EWSend n r)) (send st s (n, eev e)))
+      | EWSend n [] =>                                                  (* w.RUnlock() *)
           let w := wild st in
           tau (go (ERet 0) (set_wild st (mkWild (wpend w) (pred (rdrs w)) (wsinks w) (nsinks w))))
       | ERet c => vis (LRet (TEmit k) c) (go EDone st)
@@ -500,8 +502,9 @@ Definition sub_eqb (a b : sub) : bool :=
   && leqb item_eqb (buf a) (buf b) && leqb Nat.eqb (snodes a) (snodes b) && leqb Z.eqb (hand a) (hand b).
 Definition epc_eqb (a b : emit_pc) : bool :=
   match a, b with
-  | E0, E0 | EChk, EChk | ELock, ELock | EWChk, EWChk | ERLock, ERLock | EDone, EDone => true
-  | ESend x, ESend y | EWSend x, EWSend y => leqb Nat.eqb x y
+  | E0, E0 | EChk, EChk | ELock, ELock | EDone, EDone => true
+  | EWChk n, EWChk n' | ERLock n, ERLock n' => Nat.eqb n n'
+  | ESend n x, ESend n' y | EWSend n x, EWSend n' y => Nat.eqb n n' && leqb Nat.eqb x y
   | ERet c, ERet d => Z.eqb c d | _, _ => false end.
 Definition emit_eqb (a b : emit) : bool := epc_eqb (epc a) (epc b).
 Definition cl_eqb (a b : cl_pc) : bool :=
